@@ -16,53 +16,62 @@ PriosWide == PriosDesign \cup {9, 10, 65434, 65435}
 PriosSmall == {NoPrio, 1, 65534}
 PriosTiny == {NoPrio, 1}
 
-(* shapes: how many entries each object has *)
+(* A generator describes a bounded family of scenarios: objects 1..nobj with 1..per entries each, at
+   most `total` entries, kinds from `kinds`, with or without all archive layouts.  The scenario is
+   chosen in MCInit by nested choices (shape, kinds, layout) - building the explicit set of scenarios
+   first is an order of magnitude slower in TLC. *)
 RECURSIVE SumSeq(_)
 SumSeq(s) == IF s = <<>> THEN 0 ELSE Head(s) + SumSeq(Tail(s))
 Shapes(nobj, per, total) ==
     {sh \in UNION {[1..n -> 1..per] : n \in 1..nobj} : SumSeq(sh) <= total}
 Offset(sh, o) == SumSeq(SubSeq(sh, 1, o - 1))
-PlainOfShape(kinds, sh) ==
-    {[o \in 1..Len(sh) |-> [member |-> FALSE, pulledby |-> 0,
-                            entries |-> [e \in 1..sh[o] |-> f[Offset(sh, o) + e]]]] :
-        f \in [1..SumSeq(sh) -> kinds]}
-Plain(kinds, nobj, per, total) == UNION {PlainOfShape(kinds, sh) : sh \in Shapes(nobj, per, total)}
-
-(* all archive layouts of a plain scenario *)
+PlainLayout(n) == [o \in 1..n |-> [member |-> FALSE, pulledby |-> 0]]
 LayoutsOf(n) ==
     {lay \in [1..n -> [member : BOOLEAN, pulledby : -1..n]] :
         \A o \in 1..n : IF lay[o].member
                         THEN /\ lay[o].pulledby # o
                              /\ lay[o].pulledby > 0 => lay[lay[o].pulledby].member
                         ELSE lay[o].pulledby = 0}
-WithLayouts(scns) ==
-    UNION {{[o \in 1..Len(s) |-> [member |-> lay[o].member, pulledby |-> lay[o].pulledby,
-                                  entries |-> s[o].entries]] : lay \in LayoutsOf(Len(s))} : s \in scns}
+Mk(sh, f, lay) ==
+    [o \in 1..Len(sh) |-> [member |-> lay[o].member, pulledby |-> lay[o].pulledby,
+                            entries |-> [e \in 1..sh[o] |-> f[Offset(sh, o) + e]]]]
+Gen(kinds, nobj, per, total, layouts) ==
+    [kinds |-> kinds, nobj |-> nobj, per |-> per, total |-> total, layouts |-> layouts]
 
-(* ---- the registered scenario sets ----
-   TLC evaluates every zero-arity constant definition at start-up, so the sets are selected by the
-   constant Set and only the selected one is ever built. *)
 InitFam == {"init", "ctors"}
 FiniFam == {"fini", "dtors"}
-RECURSIVE ScnByName(_)
-ScnByName(n) ==
-    CASE n = "probe" -> Plain(KindsOf(InitFam, PriosTiny), 2, 2, 3)
+RECURSIVE GensByName(_)
+GensByName(n) ==
+    CASE n = "probe" -> {Gen(KindsOf(InArrays, PriosTiny), 3, 3, 3, FALSE)}
       (* A: priorities, ties, reversal - one family, no archives *)
-      [] n = "init3" -> Plain(KindsOf(InitFam, PriosDesign), 3, 3, 3)
-      [] n = "fini3" -> Plain(KindsOf(FiniFam, PriosDesign), 3, 3, 3)
-      [] n = "init4" -> Plain(KindsOf(InitFam, PriosDesign), 3, 3, 4)
-      [] n = "fini4" -> Plain(KindsOf(FiniFam, PriosDesign), 3, 3, 4)
-      [] n = "wide3" -> Plain(KindsOf(InitFam, PriosWide), 3, 3, 3) \cup Plain(KindsOf(FiniFam, PriosWide), 3, 3, 3)
+      [] n = "init3" -> {Gen(KindsOf(InitFam, PriosDesign), 3, 3, 3, FALSE)}
+      [] n = "fini3" -> {Gen(KindsOf(FiniFam, PriosDesign), 3, 3, 3, FALSE)}
+      [] n = "fini2" -> {Gen(KindsOf(FiniFam, PriosDesign), 2, 2, 2, FALSE)}
+      [] n = "init4" -> {Gen(KindsOf(InitFam, PriosDesign), 3, 3, 4, FALSE)}
+      [] n = "fini4" -> {Gen(KindsOf(FiniFam, PriosDesign), 3, 3, 4, FALSE)}
+      [] n = "wide3" -> {Gen(KindsOf(InitFam, PriosWide), 3, 3, 3, FALSE), Gen(KindsOf(FiniFam, PriosWide), 3, 3, 3, FALSE)}
       (* C: all five arrays together *)
-      [] n = "mix3" -> Plain(KindsOf(InArrays, PriosTiny), 3, 3, 3)
-      [] n = "mix4" -> Plain(KindsOf(InArrays, PriosSmall), 3, 3, 4)
+      [] n = "mix3" -> {Gen(KindsOf(InArrays, PriosTiny), 3, 3, 3, FALSE)}
+      [] n = "mix4" -> {Gen(KindsOf(InArrays, PriosSmall), 3, 3, 4, FALSE)}
       (* B: archives - members, extraction order, unreferenced members *)
-      [] n = "ar3" -> WithLayouts(Plain({K("init", NoPrio), K("ctors", NoPrio), K("init", 1)}, 3, 1, 3))
-      [] n = "ar3x" -> WithLayouts(Plain(KindsOf(InArrays, PriosTiny), 3, 2, 3))
-      [] n = "quick" -> ScnByName("init3") \cup ScnByName("fini3") \cup ScnByName("mix3") \cup ScnByName("ar3")
-      [] n = "thorough" -> ScnByName("init4") \cup ScnByName("fini4") \cup ScnByName("wide3")
-                            \cup ScnByName("mix4") \cup ScnByName("ar3x")
-ScnSel == ScnByName(Set)
+      [] n = "ar3" -> {Gen({K("init", NoPrio), K("ctors", NoPrio), K("init", 1)}, 3, 1, 3, TRUE)}
+      [] n = "ar3x" -> {Gen(KindsOf(InArrays, PriosTiny), 3, 2, 3, TRUE)}
+      [] n = "devprobe" -> {Gen(KindsOf(InitFam, {NoPrio, 0, 1, 65534, 65535}), 2, 1, 2, FALSE),
+                            Gen({K("init", NoPrio)}, 3, 1, 3, TRUE)}
+      [] n = "mix4t" -> {Gen(KindsOf(InArrays, PriosTiny), 3, 3, 4, FALSE)}
+      [] n = "quick" -> GensByName("init3") \cup GensByName("fini2") \cup GensByName("mix3") \cup GensByName("ar3")
+      [] n = "thorough_a" -> GensByName("init4")
+      [] n = "thorough_b" -> GensByName("fini3") \cup GensByName("wide3") \cup GensByName("mix4t")
+                              \cup GensByName("ar3x")
+Gens == GensByName(Set)
+
+MCInit ==
+    \E g \in Gens :
+      \E sh \in Shapes(g.nobj, g.per, g.total) :
+        \E f \in [1..SumSeq(sh) -> g.kinds] :
+          \E lay \in (IF g.layouts THEN LayoutsOf(Len(sh)) ELSE {PlainLayout(Len(sh))}) :
+            InitWith(Mk(sh, f, lay))
+MCSpec == MCInit /\ [][Next]_vars
 
 (* ---- REPLAY records: a seeded sample of the terminal states ---- *)
 ArrCode(a) == CASE a = "preinit" -> 1 [] a = "init" -> 2 [] a = "fini" -> 3 [] a = "ctors" -> 4 [] OTHER -> 5
@@ -78,16 +87,21 @@ Code(S, o) ==
 
 SampleMod == atoi(IOEnv.C30_MOD)
 SampleSeed == atoi(IOEnv.C30_SEED)
-Sampled(S) == (Code(S, 1) + SampleSeed) % SampleMod = 0
+TotalEntries(S) == SumSeq([o \in 1..Len(S) |-> Len(S[o].entries)])
+(* the seeded sample, plus every tiny scenario in which a recorded deviation is active (so that each
+   of them is reproduced against the real binary in every run) *)
+Sampled(S) == \/ (Code(S, 1) + SampleSeed) % SampleMod = 0
+              \/ cls # {} /\ TotalEntries(S) <= 2
 
 Rec ==
     [objs |-> [o \in 1..Len(scn) |->
                   [member |-> scn[o].member, pulledby |-> scn[o].pulledby,
                    entries |-> scn[o].entries]],
      expect |-> Order(scn),
-     classes |-> SetToSeq(ClassesOf(scn)),
-     variants |-> LET vs == SetToSeq(SUBSET ClassesOf(scn) \ {{}})
-                  IN  [i \in 1..Len(vs) |-> [devs |-> SetToSeq(vs[i]), out |-> emitted[vs[i]]]]]
+     classes |-> SetToSeq(cls),
+     pinned_deviates |-> emitted[Devs] # Order(scn),
+     variants |-> LET vq == SetToSeq(vs \ {{}})
+                  IN  [i \in 1..Len(vq) |-> [devs |-> SetToSeq(vq[i]), out |-> emitted[vq[i]]]]]
 
 EmitReplay == Done /\ Sampled(scn) => PrintT(<<"REPLAY", ToJson(Rec)>>)
 =============================================================================
